@@ -34,7 +34,8 @@ def lanczos_iteration(Afunc, vstart, numiter):
     for j in range(numiter-1):
         w = Afunc(V[j])
         alpha[j] = np.vdot(w, V[j]).real
-        w -= alpha[j]*V[j] + (beta[j-1]*V[j-1] if j > 0 else 0)
+        # (not in-place: 'w' may be the argument of 'Afunc' or a view of it)
+        w = w - (alpha[j]*V[j] + (beta[j-1]*V[j-1] if j > 0 else 0))
         beta[j] = np.linalg.norm(w)
         if beta[j] < 100*len(vstart)*np.finfo(float).eps:
             warnings.warn(
@@ -80,7 +81,8 @@ def arnoldi_iteration(Afunc, vstart, numiter):
         # subtract the projections on previous vectors
         for k in range(j+1):
             H[k, j] = np.vdot(V[k], w)
-            w -= H[k, j]*V[k]
+            # (not in-place: 'w' may be the argument of 'Afunc' or a view of it)
+            w = w - H[k, j]*V[k]
         H[j+1, j] = np.linalg.norm(w)
         if H[j+1, j] < 100*len(vstart)*np.finfo(float).eps:
             warnings.warn(
@@ -96,7 +98,7 @@ def arnoldi_iteration(Afunc, vstart, numiter):
     w = Afunc(V[j])
     for k in range(j+1):
         H[k, j] = np.vdot(V[k], w)
-        w -= H[k, j]*V[k]
+        w = w - H[k, j]*V[k]
 
     return H, V.T
 
